@@ -128,8 +128,13 @@ def _chain_inv(upto):
 
 
 def _ghost_vidx(E, P, ctx, args):
+    """Before `vpsc.Solver(variables, constraints)`: introduce the ghost inverse index of `variables` and prove a few
+    cut-point assertions about the two lists (each is an obligation, then assumed): they shorten the later proofs."""
     # args of Solver.__init__: (self, vs, cs)
     E.ghost_index(P, args[1], "Variable.$vidx", "variables")
+    case = E.active_case or {}
+    for nm, src in case.get("_asserts_before_solver", []):
+        E.prove_spec(P, "assert.before_solver.%s" % nm, src, ctx.asspec(), "assert")
 
 
 def _options(minpos, maxpos):
@@ -140,7 +145,7 @@ CONTRACTS["removeOverlap.removeOverlap"] = {
     "props": ["C01", "C02", "C03", "C08"], "heap": True,
     "params": {"nodes": "slist:ref:Node"},
     "cases": [{"params": {"options": _options(mn, mx)}} for mn in ("none", "real") for mx in ("none", "real")],
-    "requires": _NODES_OK + ["options['nodeSpacing'] >= 0", "inv_blk()", "all_wf()"],
+    "requires": _NODES_OK + ["options['nodeSpacing'] >= 0", "inv_blk()"],
     "slist_locals": {"constraints": "slist:ref:Constraint"},
     "ghost": {"before_call:vpsc.Solver.__init__": _ghost_vidx},
     "modifies": ["Node.targetPos", "Node.targetPos$set", "Node.currentPos", "list.elems.ref~Node"] + _VAR_FIELDS + _CFIELDS
@@ -218,11 +223,98 @@ def _case(mn, mx):
         ("S6_targets", "forall(lambda j: implies(0 <= j < len(nodes), nodes[j].targetPos == target_of(nodes[j])))"),
         ("S7_solver", "solver is not None and solver.vs is not None and solver.cs is not None and vars_in_blocks(solver.vs) and feasible(solver)"),
     ]
-    return ens, stones
+    # cut-point assertions right before the Solver is created (locals: variables = the solver's variable list,
+    # constraints = its constraint list, variables__0 = the item variables as built by the comprehension)
+    n = "len(nodes)"
+    asserts = [
+        ("A0_lengths", "len(variables) == %s + %d and len(constraints) == %s - 1 + %d and len(variables__0) == %s + %d"
+         % (n, off + offr, n, off + offr, n, (offr if not off else 0))),
+        ("A1_items_at_offset", "forall(lambda j: implies(0 <= j < %s, variables[j + %d] is variables__0[j]))" % (n, off)),
+        ("A1b_items_by_index", "forall(lambda i: implies(%d <= i < %s + %d, variables[i] is variables__0[i - %d]))" % (off, n, off, off)),
+        ("A2_chain_over_solver_list", "forall(lambda i: implies(0 <= i < %s - 1, constraints[i].left is variables[i + %d] "
+                                      "and constraints[i].right is variables[i + %d]))" % (n, off, off + 1)),
+        ("A3_all_items_basic", "forall(lambda i: implies(0 <= i < len(variables), variables[i] is not None and variables[i].scale == 1 "
+                               "and vidx(variables[i]) == i))"),
+        ("A4a1", "forall(lambda i: implies(0 <= i < %s - 1, constraints[i] is not None and not constraints[i].equality and not constraints[i].active))" % n),
+        ("A4a2", "forall(lambda i: implies(0 <= i < %s - 1, lastpos(constraints[i]) == i))" % n),
+        ("A4a3", "forall(lambda i: implies(0 <= i < %s - 1, constraints[i].left is not None and constraints[i].right is not None))" % n),
+        ("A4a4", "forall(lambda i: implies(0 <= i < %s - 1, in_vs(variables, constraints[i].left)))" % n),
+        ("A4a5", "forall(lambda i: implies(0 <= i < %s - 1, in_vs(variables, constraints[i].right)))" % n),
+        ("A4a6", "forall(lambda i: implies(0 <= i < %s - 1, constraints[i].left.scale == 1 and constraints[i].right.scale == 1))" % n),
+        ("A4a_chain_basic", "forall(lambda i: implies(0 <= i < %s - 1, constraints[i] is not None and not constraints[i].equality "
+                            "and not constraints[i].active and lastpos(constraints[i]) == i and constraints[i].left is not None "
+                            "and constraints[i].right is not None and in_vs(variables, constraints[i].left) and in_vs(variables, constraints[i].right) "
+                            "and constraints[i].left.scale == 1 and constraints[i].right.scale == 1))" % n),
+    ] + ([("A4b_left_wall_constraint", "constraints[%s - 1] is not None and constraints[%s - 1].left is variables[0] and constraints[%s - 1].right is variables[1] "
+                                       "and not constraints[%s - 1].equality and not constraints[%s - 1].active and lastpos(constraints[%s - 1]) == %s - 1 "
+                                       "and in_vs(variables, variables[0]) and in_vs(variables, variables[1])" % ((n,) * 7))] if off else []) + (
+         [("A4c_right_wall_constraint", "constraints[{c}] is not None and constraints[{c}].left is variables[len(variables) - 2] "
+                                        "and constraints[{c}].right is variables[len(variables) - 1] and not constraints[{c}].equality "
+                                        "and not constraints[{c}].active and lastpos(constraints[{c}]) == {c} "
+                                        "and in_vs(variables, variables[len(variables) - 2]) and in_vs(variables, variables[len(variables) - 1])"
+           .format(c="%s - 1 + %d" % (n, off)))] if offr else []) + [
+        ("A4_constraints_basic", "forall(lambda i: implies(0 <= i < len(constraints), constraints[i] is not None and not constraints[i].equality "
+                                 "and not constraints[i].active and lastpos(constraints[i]) == i and constraints[i].left is not None "
+                                 "and constraints[i].right is not None and in_vs(variables, constraints[i].left) and in_vs(variables, constraints[i].right) "
+                                 "and constraints[i].left.scale == 1 and constraints[i].right.scale == 1))"),
+        ("A4y_new_listed", "new_constraints_listed(constraints)"),
+        ("A4z_old_untouched", "forall(lambda c: implies(old(alloc(c)), c.active == old(c.active) and c.left is old(c.left) and c.right is old(c.right) and c.gap == old(c.gap) and c.equality == old(c.equality) and c.unsatisfiable == old(c.unsatisfiable)), 'ref:Constraint')"),
+        ("A4w_old_variables_keep_blocks", "forall(lambda v: implies(old(alloc(v)), v.block is old(v.block) and v.scale == old(v.scale)), 'ref:Variable')"),
+        ("A5_prewf", "prewf_list(constraints, variables)"),
+    ]
+    cuts = {}
+    if off:
+        chain = ("constraints[i] is not None and constraints[i].left is variables__0[i] and constraints[i].right is variables__0[i + 1] "
+                 "and not constraints[i].equality and not constraints[i].active and not constraints[i].unsatisfiable and lastpos(constraints[i]) == i "
+                 "and constraints[i].gap == gap_between(variables__0[i].node, variables__0[i + 1].node, options['lineSpacing'], options['nodeSpacing'])")
+        cuts["after_assign:variables#1"] = [
+            ("L1_concat", "len(variables) == %s + 1 and variables[0] is leftWall and forall(lambda j: implies(0 <= j < %s, variables[j + 1] is variables__0[j]))" % (n, n)),
+            ("L1b_concat_by_index", "forall(lambda i: implies(1 <= i < %s + 1, variables[i] is variables__0[i - 1]))" % n),
+            ("L2_wall_constraint", "len(constraints) == %s and constraints[%s - 1] is not None and constraints[%s - 1].left is leftWall "
+                                   "and constraints[%s - 1].right is variables__0[0] and constraints[%s - 1].gap == variables__0[0].node.width / 2 "
+                                   "and not constraints[%s - 1].active and not constraints[%s - 1].equality and not constraints[%s - 1].unsatisfiable "
+                                   "and lastpos(constraints[%s - 1]) == %s - 1" % ((n,) * 10)),
+            ("L3_wall_constraint_is_new", "forall(lambda i: implies(0 <= i < %s - 1, constraints[i] is not constraints[%s - 1]))" % (n, n)),
+            ("L4_chain_kept", "forall(lambda i: implies(0 <= i < %s - 1, %s))" % (n, chain)),
+            ("L5_wall_variable", "leftWall is not None and leftWall.desiredPosition == options['minPos'] and leftWall.weight == 1e10 and leftWall.scale == 1 "
+                                 "and leftWall.node is None and forall(lambda j: implies(0 <= j < %s, variables__0[j] is not leftWall))" % n),
+            ("L7_new_listed", "new_constraints_listed(constraints)"),
+            ("L8_old_untouched", "forall(lambda c: implies(old(alloc(c)), c.active == old(c.active) and c.left is old(c.left) and c.right is old(c.right) and c.gap == old(c.gap) and c.equality == old(c.equality) and c.unsatisfiable == old(c.unsatisfiable)), 'ref:Constraint')"),
+            ("L6_items_kept", "len(variables__0) == %s and forall(lambda j: implies(0 <= j < %s, variables__0[j].node is nodes[j] and variables__0[j].scale == 1 "
+                              "and variables__0[j].weight == 1 and variables__0[j].desiredPosition == nodes[j].targetPos))" % (n, n)),
+        ]
+    if offr:
+        # after `variables.append(rightWall)` (expression statement #5 of the function, static ordinal)
+        items = "variables__0" if off else "variables"   # without a left wall the item variables list is extended in place
+        base = off
+        cuts["after_expr#5"] = [
+            ("R1_appended", "len(variables) == %s + %d and variables[len(variables) - 1] is rightWall and rightWall is not None "
+                            "and rightWall.desiredPosition == options['maxPos'] and rightWall.weight == 1e10 and rightWall.scale == 1 and rightWall.node is None"
+             % (n, off + 1)),
+            ("R2_items_kept", "forall(lambda j: implies(0 <= j < %s, variables[j + %d].node is nodes[j] and variables[j + %d].scale == 1 "
+                              "and variables[j + %d].weight == 1 and variables[j + %d].desiredPosition == nodes[j].targetPos and variables[j + %d] is not rightWall))"
+             % (n, base, base, base, base, base)),
+            ("R3_wall_constraint", "len(constraints) == %s + %d and constraints[%s - 1 + %d] is not None and constraints[%s - 1 + %d].right is rightWall "
+                                   "and constraints[%s - 1 + %d].left is variables[%s - 1 + %d] and constraints[%s - 1 + %d].gap == nodes[%s - 1].width / 2 "
+                                   "and not constraints[%s - 1 + %d].active and not constraints[%s - 1 + %d].equality and not constraints[%s - 1 + %d].unsatisfiable "
+                                   "and lastpos(constraints[%s - 1 + %d]) == %s - 1 + %d"
+             % (n, off, n, off, n, off, n, off, n, off, n, off, n, n, off, n, off, n, off, n, off, n, off)),
+            ("R4_wall_constraint_is_new", "forall(lambda i: implies(0 <= i < %s - 1 + %d, constraints[i] is not constraints[%s - 1 + %d]))" % (n, off, n, off)),
+            ("R7_new_listed", "new_constraints_listed(constraints)"),
+            ("R8_old_untouched", "forall(lambda c: implies(old(alloc(c)), c.active == old(c.active) and c.left is old(c.left) and c.right is old(c.right) and c.gap == old(c.gap) and c.equality == old(c.equality) and c.unsatisfiable == old(c.unsatisfiable)), 'ref:Constraint')"),
+            ("R5_chain_kept", "forall(lambda i: implies(0 <= i < %s - 1, constraints[i] is not None and constraints[i].left is variables[i + %d] "
+                              "and constraints[i].right is variables[i + %d] and not constraints[i].equality and not constraints[i].active "
+                              "and not constraints[i].unsatisfiable and lastpos(constraints[i]) == i "
+                              "and constraints[i].gap == gap_between(nodes[i], nodes[i + 1], options['lineSpacing'], options['nodeSpacing'])))" % (n, off, off + 1)),
+        ] + ([("R6_left_wall_kept", "variables[0] is leftWall and leftWall.node is None and leftWall.scale == 1 and constraints[%s - 1].left is leftWall "
+                                   "and constraints[%s - 1].right is variables[1] and not constraints[%s - 1].active and not constraints[%s - 1].equality "
+                                   "and lastpos(constraints[%s - 1]) == %s - 1 and leftWall is not rightWall" % ((n,) * 6))] if off else [])
+    return ens, stones, asserts, cuts
 
 
 CONTRACTS["removeOverlap.removeOverlap"]["cases"] = [
-    {"params": {"options": _options(mn, mx)}, "ensures": _case(mn, mx)[0], "loops": {2: {"inv": _case(mn, mx)[1]}}}
+    {"params": {"options": _options(mn, mx)}, "ensures": _case(mn, mx)[0], "loops": {2: {"inv": _case(mn, mx)[1]}},
+     "_asserts_before_solver": _case(mn, mx)[2], "cuts": _case(mn, mx)[3]}
     for mn in ("none", "real") for mx in ("none", "real")]
 CONTRACTS["removeOverlap.removeOverlap"]["requires"] += [
     # items of one layer never stand in for each other: no item's stub (parent) is an item of the same layer
